@@ -171,11 +171,10 @@ def miri_arm(prop, seed, count, findings, notes):
         for line in err.splitlines():
             if line.startswith("CASE "):
                 last_case = line[5:]
-        kind = "unknown"
-        for line in err.splitlines():
-            if "Undefined Behavior:" in line:
-                kind = line.split("Undefined Behavior:", 1)[1].strip()
-                break
+        import simr
+        kind, where = simr.parse_miri(err)
+        if where:
+            kind = "%s @ %s" % (kind, where)
         ub.append(dict(kind=kind, case=json.loads(last_case) if last_case else None, stderr=err[-3000:], cmd=r["cmd"], miriflags=None))
     return merged, ub, time.time() - t0
 
